@@ -428,7 +428,9 @@ def p3(ctx):
                 deps = depends_on(du_, tn, side)
                 if "etag" in deps:
                     continue
-                cached = sorted(d_ for d_ in deps if d_ in ("self._fname_to_uid", "self._uid_to_fname"))
+                from .c06 import map_names as _mn
+                _store_cls = "xandikos.store.vdir.VdirStore" if cq.endswith("VdirStore") else "xandikos.store.git.GitStore"
+                cached = sorted(d_ for d_ in deps if d_ in _mn(ctx, _store_cls))
                 if cached:
                     stale.append((tn, cached))
         obs.append(ctx.ob(not stale, fi.qualname, where(fi, tests[0]), "etag compared with a fresh read",
